@@ -33,6 +33,8 @@
 (* or one of the named values                                              *)
 (* "neg" (-1), "p63" (2^63), "wrap" (2^63 + MinUnit: doubles to an         *)
 (* in-range amount modulo 2^64), "u64max" (2^64-1), "over64" (2^64),       *)
+(* "ovp" (2^64 + 2*MinUnit) and "ovn" (-(2^64 + MinUnit)): beyond 64 bits, *)
+(* opposite signs, low 64 bits of the magnitude in range, sum = MinUnit,   *)
 (* "nil" (field absent); and, only ever produced by projecting a concrete   *)
 (* number (stored records, random concrete messages), "big" (any other     *)
 (* amount above 2e9 units), "vast" (any other amount above 2^64) and       *)
@@ -92,7 +94,8 @@ ASSUME /\ Impl \in {"intended", "asfound"}
 Lin(a, b) == [k |-> "lin", a |-> a, b |-> b]
 Sp(k)     == [k |-> k, a |-> 0, b |-> 0]
 IsLin(v)  == v.k = "lin"
-Huge      == {"p63", "wrap", "u64max", "over64", "big", "vast"}   \* values above every limit
+Huge      == {"p63", "wrap", "u64max", "over64", "ovp", "big", "vast"}   \* values above every limit
+Negative  == {"neg", "ovn", "other"}                                     \* values below zero
 
 \* renormalise a*U + b so that b is in [-U/2, U/2)
 Norm(r, a, b) == LET U == Unit[r]
@@ -166,15 +169,15 @@ WithinLimits(d) == \A c \in Clauses : ClauseHolds(c, d)
 (* The procedure: x/deployment/types + handler/server.go, check by check, first failure wins *)
 
 GTa(v, hi) == v.k \in Huge \/ (IsLin(v) /\ ~LEa(v, hi))
-LTa(v, lo) == v.k \in {"neg", "other"} \/ (IsLin(v) /\ ~GEa(v, lo))
+LTa(v, lo) == v.k \in Negative \/ (IsLin(v) /\ ~GEa(v, lo))
 GTl(v, x)  == v.k \in Huge \/ (IsLin(v) /\ ~LEl(v, x))
-LTl(v, x)  == v.k \in {"neg", "other"} \/ (IsLin(v) /\ ~GEl(v, x))
+LTl(v, x)  == v.k \in Negative \/ (IsLin(v) /\ ~GEl(v, x))
 
 \* validateCPU / validateMemory / validateStorage: nil check, then ResourceValue.Value() = Int.Uint64(), which
 \* panics outside 0..2^64-1 (runTx recovers: the transaction fails), then the two-sided bound
 ResVerdict(r, v) ==
     IF v.k = "nil" THEN "unit-" \o r
-    ELSE IF v.k \in {"neg", "over64", "other", "vast"} THEN "panic"
+    ELSE IF v.k \in Negative \cup {"over64", "ovp", "vast"} THEN "panic"
     ELSE IF GTl(v, MaxUnit[r]) \/ LTl(v, MinUnit[r]) THEN "unit-" \o r
     ELSE "ok"
 
@@ -202,7 +205,7 @@ TotalBad(us, r) == LET t == Acc(us, r, Len(us))
 \* validateUnitPricing + the denomination check of validateGroupPricing, unit after unit
 ValidDenom(d) == d # ""
 PriceVerdict(u) ==
-    IF u.price.k \in {"neg", "other"} \/ ~ValidDenom(u.pdenom) THEN "price-invalid"      \* Coin.IsValid
+    IF u.price.k \in Negative \/ ~ValidDenom(u.pdenom) THEN "price-invalid"      \* Coin.IsValid
     ELSE IF GTa(u.price, MaxUnitPrice) THEN "price-range"
     ELSE IF LTa(u.price, MinUnitPrice) THEN "price-range"
     ELSE IF u.pdenom # Denom THEN "price-denom"
@@ -295,7 +298,7 @@ ResClasses(r) ==
      Lin(Mid[r], IF Unit[r] = 1 THEN 0 ELSE MidOff - 500),
      V(r, MaxUnit[r], -1), V(r, MaxUnit[r], 0), V(r, MaxUnit[r], 1),
      V(r, MaxGroup[r], 0), V(r, MaxGroup[r], 1),
-     Sp("p63"), Sp("wrap"), Sp("u64max"), Sp("over64")}
+     Sp("p63"), Sp("wrap"), Sp("u64max"), Sp("over64"), Sp("ovp"), Sp("ovn")}
 CountClasses == {c \in {0, MinUnitCount - 1, MinUnitCount, MinUnitCount + 1, 2, MidCount, MaxUnitCount - 1,
                         MaxUnitCount, MaxUnitCount + 1, CountSat} : c >= 0}
 PriceClasses == {N(0), N(MinUnitPrice - 1), N(MinUnitPrice), N(MinUnitPrice + 1), N(MidPrice),
@@ -412,11 +415,24 @@ F_update == IF "update" \notin Fams THEN {} ELSE
                SetField(BaseMsg(1, 1), 1, 1, "cpu", V("cpu", MaxUnit.cpu, 1)).groups,
                [BaseMsg(2, 1) EXCEPT !.groups[2].name = GName(1)].groups}}
 
+\* F10 amounts beyond 64 bits that cancel: two units of one group whose amounts of one resource (or of all three)
+\* are ovp and ovn -- individually far outside the per-unit bounds, the low 64 bits of each in range, the group
+\* total exactly MinUnit, i.e. within the per-group bound; in either order, in the first or the last group, also
+\* next to an ordinary third unit
+F_trunc == IF "trunc" \notin Fams THEN {} ELSE
+    LET Two(R, o) == [j \in 1..2 |-> [f \in DOMAIN BaseUnit |->
+                        IF f \in R THEN Sp(IF (j = 1) = (o = 1) THEN "ovp" ELSE "ovn") ELSE BaseUnit[f]]]
+    IN  UNION {{[BaseMsg(1, 1) EXCEPT !.groups[1].units = Two(R, o)],
+                [BaseMsg(2, 1) EXCEPT !.groups[2].units = Two(R, o)],
+                [BaseMsg(1, 1) EXCEPT !.groups[1].units = Two(R, o) \o <<BaseUnit>>],
+                [BaseMsg(1, 1) EXCEPT !.groups[1].units = <<BaseUnit>> \o Two(R, o)]} :
+               R \in {{"cpu"}, {"mem"}, {"sto"}, {"cpu", "mem"}, Res}, o \in {1, 2}}
+
 Tag(f, S) == {[fam |-> f, m |-> x, n |-> 0] : x \in S}
-AllFams == {"shapes", "single", "dep", "names", "totals", "pairs", "cross", "mix", "update"}
+AllFams == {"shapes", "single", "dep", "names", "totals", "pairs", "cross", "mix", "update", "trunc"}
 Family(f) == CASE f = "shapes" -> F_shapes [] f = "single" -> F_single [] f = "dep" -> F_dep [] f = "names" -> F_names
                [] f = "totals" -> F_totals [] f = "pairs" -> F_pairs [] f = "cross" -> F_cross [] f = "mix" -> F_mix
-               [] f = "update" -> F_update
+               [] f = "update" -> F_update [] f = "trunc" -> F_trunc
 Cover == UNION {Tag(f, Family(f)) : f \in Fams \cap AllFams}
 
 -----------------------------------------------------------------------------
